@@ -6,7 +6,9 @@
 From Coq Require Import PeanoNat Arith Lia.
 From AV Require Import Base.Bytes Base.Outcome Hash.HashModel Tree.Heap Tree.Ops Tree.Script Tree.Inv
   Tree.InvProofsBase Tree.InvProofsPrim Tree.InvProofsFiles Tree.InvProofs Tree.Load Tree.MergeSpec
-  Tree.InvLoad Tree.InvProofsLoadBase Tree.InvProofsLoad.
+  Tree.InvLoad Tree.InvProofsLoadBase Tree.InvProofsLoad Tree.InvProofsChars Tree.InvProofsOrigins3 Tree.InvEBase
+  Tree.InvProofsLoadLive Tree.InvProofsLoadRej.
+From AV Require Tree.LoadProofsRefuted.
 From AV Require Xml.Parser.
 Open Scope string_scope.
 Open Scope list_scope.
@@ -94,6 +96,90 @@ Example load_master_core :
 Proof.
   split; [vm_compute; reflexivity|]. split; [vm_compute; reflexivity|].
   apply (load_parsed_core tiny LATEST DEFREF 0 (BS "f1") file1 (pstate_of tiny 2 file1) w_f0 (OK 1) w_f01 w_f0_core).
+  - intros t w1 x Ei w2 Hx Hf. vm_compute in Ei. injection Ei as <- <-.
+    vm_compute in Hx. injection Hx as <-. vm_compute. reflexivity.
+  - discriminate.
+  - vm_compute. reflexivity.
+Qed.
+
+(* ---------- a REJECTED load (agent-c09's conflict example): Core of the result by load_parsed_core_full ---------- *)
+Definition w_rej_before : world :=
+  match load_tree "a" LoadProofsRefuted.conf_a new_world with Val (_, w) => w | _ => new_world end.
+Definition w_rej_after : world :=
+  match load_tree "b" LoadProofsRefuted.conf_b w_rej_before with Val (_, w) => w | _ => new_world end.
+
+Lemma w_rej_before_core : Core w_rej_before.
+Proof.
+  apply (load_parsed_core tiny LATEST DEFREF 0 (BS "a") LoadProofsRefuted.conf_a (pstate_of tiny 2 LoadProofsRefuted.conf_a)
+                          new_world (OK 0) w_rej_before new_world_core).
+  - intros t w1 x Ei w2 Hx Hf. exfalso. vm_compute in Ei. injection Ei as <- <-.
+    vm_compute in Hx. injection Hx as <-. vm_compute in Hf. discriminate Hf.
+  - discriminate.
+  - vm_compute. reflexivity.
+Qed.
+
+Example load_rejected_core :
+  load_tree "b" LoadProofsRefuted.conf_b w_rej_before = Val (ER InvalidFileMerge, w_rej_after) /\ Core w_rej_after.
+Proof.
+  split; [vm_compute; reflexivity|].
+  apply (load_parsed_core_full tiny LATEST DEFREF 0 (BS "b") LoadProofsRefuted.conf_b
+           (pstate_of tiny 2 LoadProofsRefuted.conf_b) w_rej_before (ER InvalidFileMerge) w_rej_after w_rej_before_core).
+  - intros t w1 x Ei w2 Hx Hf. vm_compute in Ei. injection Ei as <- <-.
+    vm_compute in Hx. injection Hx as <-. vm_compute. reflexivity.
+  - vm_compute. reflexivity.
+Qed.
+
+(* ---------- RealInvL of the merged master, by load_parsed_real ---------- *)
+Fixpoint echarsb (e : Parser.etree) : bool :=
+  match e with
+  | Parser.ENode _ ty _ content _ =>
+    (match content_mode tiny ty with
+     | Val m => negb (m =? MCharacters) || forallb (fun it => match it with inl _ => false | inr _ => true end) content
+     | _ => true
+     end) &&
+    forallb (fun it => match it with inl c => echarsb c | inr _ => true end) content
+  end.
+
+Lemma echarsb_sound : forall e, echarsb e = true -> EChars tiny e.
+Proof.
+  fix IH 1. intros [name ty attrs content comment] H. cbn [echarsb] in H. apply andb_prop in H as (H1 & H2).
+  constructor.
+  - intros CM c Hc. rewrite CM in H1. rewrite N.eqb_refl in H1. cbn in H1. rewrite forallb_forall in H1.
+    specialize (H1 _ Hc). discriminate H1.
+  - clear H1. revert H2. induction content as [|[c0|d] rest IHc]; intros H2 c Hc; [destruct Hc| |].
+    + cbn [forallb] in H2. apply andb_prop in H2 as (Ha & Hb). destruct Hc as [E|Hc].
+      * injection E as <-. apply IH. exact Ha.
+      * apply IHc; auto.
+    + cbn [forallb] in H2. destruct Hc as [E|Hc]; [discriminate E|]. apply IHc; auto.
+Qed.
+
+Lemma new_world_real : RealInvL tiny new_world.
+Proof.
+  assert (Hn : forall i n, w_nodes new_world i = Some n -> i = 0 /\ kids n = [] /\ n_parent n = PModel 0).
+  { intros i n H. unfold new_world in H. cbn in H. unfold upd in H. destruct (i =? 0) eqn:E; [|discriminate H].
+    apply N.eqb_eq in E. injection H as <-. auto. }
+  split; [split; [exact new_world_core|]|split].
+  - intros c p (n & Hc & Hp). destruct (Hn _ _ Hc) as (_ & _ & Hpm). congruence.
+  - intros i n Hi _. apply (Hn _ _ Hi).
+  - intros re (x & k & l & Hx & Hk & _). cbn in Hx. destruct Hx as [<-|[]]. destruct Hk.
+Qed.
+
+Lemma w_f0_real : RealInvL tiny w_f0.
+Proof.
+  apply (load_parsed_real tiny LATEST DEFREF 0 (BS "f0") file0 (pstate_of tiny 2 file0) new_world (OK 0) w_f0 new_world_real).
+  - apply echarsb_sound. vm_compute. reflexivity.
+  - intros key pos sub Hin. vm_compute in Hin. destruct Hin.
+  - intros t w1 x Ei w2 Hx Hf. exfalso. vm_compute in Ei. injection Ei as <- <-.
+    vm_compute in Hx. injection Hx as <-. vm_compute in Hf. discriminate Hf.
+  - discriminate.
+  - vm_compute. reflexivity.
+Qed.
+
+Example load_master_real : RealInvL tiny w_f01.
+Proof.
+  apply (load_parsed_real tiny LATEST DEFREF 0 (BS "f1") file1 (pstate_of tiny 2 file1) w_f0 (OK 1) w_f01 w_f0_real).
+  - apply echarsb_sound. vm_compute. reflexivity.
+  - intros key pos sub Hin. vm_compute in Hin. destruct Hin.
   - intros t w1 x Ei w2 Hx Hf. vm_compute in Ei. injection Ei as <- <-.
     vm_compute in Hx. injection Hx as <-. vm_compute. reflexivity.
   - discriminate.
